@@ -45,11 +45,17 @@ func TestVerifNativeMergoModel(t *testing.T) {
 		for _, s := range maps {
 			real, model := clone(d), clone(d)
 			err1 := mergo.Merge(&real, clone(s), mergo.WithOverride)
-			err2 := C14MergeModel(&model, clone(s))
+			err2 := C14MergeModel(&model, clone(s), mergo.WithOverride)
 			if (err1 == nil) != (err2 == nil) || !(reflect.DeepEqual(real, model) || (len(real) == 0 && len(model) == 0)) {
 				t.Fatalf("mergo model differs: dst=%v src=%v real=%v (%v) model=%v (%v)", d, s, real, err1, model, err2)
 			}
-			n++
+			real, model = clone(d), clone(d)
+			err1 = mergo.Merge(&real, clone(s))
+			err2 = C14MergeModel(&model, clone(s))
+			if (err1 == nil) != (err2 == nil) || !(reflect.DeepEqual(real, model) || (len(real) == 0 && len(model) == 0)) {
+				t.Fatalf("mergo model (no override) differs: dst=%v src=%v real=%v (%v) model=%v (%v)", d, s, real, err1, model, err2)
+			}
+			n += 2
 		}
 	}
 	t.Logf("compared %d pairs", n)
